@@ -57,6 +57,11 @@ import (
 const c26Deadline = 120 * time.Second
 
 func c26Inconclusive(msg string) {
+	if d := os.Getenv("VERIF_C26_DUMP"); d != "" {
+		// Debugging aid: the driver's log keeps only the tail of the output.
+		_ = os.MkdirAll(d, 0o755)
+		_ = os.WriteFile(fmt.Sprintf("%s/inconclusive-%d.txt", d, os.Getpid()), []byte(msg), 0o644)
+	}
 	fmt.Fprintln(os.Stderr, "VERIF-INCONCLUSIVE: "+msg)
 	fmt.Println("VERIF-INCONCLUSIVE: " + msg)
 	os.Exit(3)
@@ -132,7 +137,8 @@ type c26TypeState struct {
 	watchPlan []c26WatchPlan
 	watcher   *c26Watcher // most recent successfully created watcher that is still running
 	// listAlwaysErr: the datastore has gone away for good (early-stop ending).
-	listAlwaysErr bool
+	listAlwaysErr     bool
+	listErrsSinceGone int
 	// bookkeeping for the oracle / evidence
 	listsCompleted   int
 	listCalls        int
@@ -217,6 +223,7 @@ func (s *c26Store) List(ctx context.Context, list model.ListInterface, revision 
 	}
 	if ts.listAlwaysErr {
 		outcome = c26ListErr
+		ts.listErrsSinceGone++
 	}
 	s.logf("List(%s, rev=%s) -> %s", kind, revision, outcome)
 	defer s.bumpLocked()
@@ -891,9 +898,6 @@ func TestVerifC26WatcherSyncer(t *testing.T) {
 		if earlyStop {
 			// Alternative ending: the datastore goes away for good and the syncer is stopped while it
 			// is reporting WaitForDatastore.  Only the ordering clauses (2, 3) apply.
-			cbs.mu.Lock()
-			waitsBefore := cbs.waitCount
-			cbs.mu.Unlock()
 			store.mu.Lock()
 			for _, k := range kinds {
 				ts := store.types[k]
@@ -907,8 +911,18 @@ func TestVerifC26WatcherSyncer(t *testing.T) {
 			store.bumpLocked()
 			store.mu.Unlock()
 			c.steps = append(c.steps, "datastore gone: every List fails from now on; wait for WaitForDatastore, then Stop")
-			c.waitRec("WaitForDatastore reported after the datastore went away", func() bool {
-				return cbs.waitCount > waitsBefore && cbs.status == api.WaitForDatastore
+			// (The syncer may already be in WaitForDatastore from an earlier outage, so wait for the
+			// state, not for a new report.)
+			c.waitStore("every type has hit the dead datastore", func() bool {
+				for _, k := range kinds {
+					if store.types[k].listErrsSinceGone < 2 {
+						return false
+					}
+				}
+				return true
+			})
+			c.waitRec("WaitForDatastore is the reported status after the datastore went away", func() bool {
+				return cbs.status == api.WaitForDatastore
 			})
 			stop()
 			c.checkViolations()
